@@ -2,8 +2,12 @@
 From Yv Require Export Common.Base C09.Kernel C09.Model C09.Spec.
 
 (* One case: the files that exist when the shell starts, the items of the
-   script, the observation made before the first item and one [step] per item
-   that was executed (the script stops when the shell exits). *)
+   script, the observation made before the first item and the steps observed, in
+   execution order: one per command / limit change / option change that was
+   executed; for a compound command with a body, one when the body starts (or
+   one when its redirections are refused), the steps of the body, and one after
+   the command.  The script stops when the shell exits; the last step then
+   shows the state the shell exits with. *)
 Definition case := (fsys * list item * obs * list step)%type.
 
 (* ---- oracle over the whole script (implementation's observations only) ---- *)
